@@ -209,7 +209,8 @@ META = {
             "sorted spectrum, factors and labels are cut together, the kept count is a min against the configured limit and the spectrum "
             "length, and both ways of specifying a limit address the same bond. The discarded-weight inequality itself is a theorem about "
             "singular values and is not decided."
-            ' The criteria dispatch and the threshold count are decided by abstract runs (result = min over a set of bounds; count of normalised values above the threshold).',
+            ' The criteria dispatch and the threshold count are decided by abstract runs (result = min over a set of bounds; count of normalised values above the threshold).'
+            ' For tree states the compression sweep is run abstractly: every bond is truncated once, at its gauge centre, with the temporary limit of the call.',
     "note": "Forms understood for bounds: min / np.minimum; anything else on those assignments stops the analysis (exit 2).",
     "design_ref": "DESIGN.md 3.4, 3.5, 4 (C05); as built: 9.1, 9.3, 9.8",
 }
